@@ -12,10 +12,14 @@ pub struct Case {
     pub requests: u8,
     /// Some: afterwards one publish request at a time is sent until every late subscription has been served
     pub second_round_requests: Option<u8>,
+    /// Some: after the subscriptions have been ticked once, ModifySubscription gives them these priorities
+    #[serde(default)]
+    pub modified_priorities: Option<Vec<u8>>,
 }
 
 fn case() -> impl Strategy<Value = Case> {
-    (prop::collection::vec(any::<u8>(), 2..6), 1u8..7, proptest::option::weighted(0.5, 1u8..7)).prop_map(|(priorities, requests, second_round_requests)| Case { priorities, requests, second_round_requests })
+    (prop::collection::vec(any::<u8>(), 2..6), 1u8..7, proptest::option::weighted(0.5, 1u8..7), proptest::option::weighted(0.4, prop::collection::vec(any::<u8>(), 5)))
+        .prop_map(|(priorities, requests, second_round_requests, modified_priorities)| Case { priorities, requests, second_round_requests, modified_priorities })
 }
 
 fn distinct(ps: &[u8]) -> Vec<u8> {
@@ -48,6 +52,17 @@ fn run(ctx: &Ctx, c: &Case) -> PResult {
     let out = fx.tick(ctx, 0)?;
     if !out.is_empty() {
         return ctx.fail("setup/response-without-request", format!("{}", out.len()));
+    }
+    if let Some(mp) = &c.modified_priorities {
+        let newp = distinct(&mp[..subs.len().min(mp.len())]);
+        for (i, p) in newp.iter().enumerate() {
+            let st = ctx.guard(|| fx.modify_sub(subs[i].0, 1000.0, 50, 3000, *p))?;
+            if st.is_bad() {
+                return ctx.fail("setup/modify-subscription", format!("{}", st));
+            }
+            subs[i].1 = *p;
+        }
+        ctx.class("priorities_modified_after_first_tick");
     }
     let mut by_priority = subs.clone();
     by_priority.sort_by(|a, b| b.1.cmp(&a.1));
@@ -145,7 +160,7 @@ fn run(ctx: &Ctx, c: &Case) -> PResult {
 pub fn def() -> PropDef {
     PropDef {
         id: "C27",
-        rule: "2..5 subscriptions with distinct generated priorities (creation order independent of priority order), each with one item and a pending change, all publishing intervals elapsing in the same timer tick, k = 1..6 publish requests queued beforehand, optionally followed by one publish request at a time for the subscriptions left late; oracle: the subscriptions answered by that tick are the k highest-priority ones, in descending priority, and each later request is answered by the highest-priority late subscription; non-trivial = fewer requests than ready subscriptions and a priority order that is neither ascending nor descending subscription-id order; distinct = distinct case",
+        rule: "2..5 subscriptions with distinct generated priorities (creation order independent of priority order; in 40% of the cases the priorities are replaced through ModifySubscription after the first tick), each with one item and a pending change, all publishing intervals elapsing in the same timer tick, k = 1..6 publish requests queued beforehand, optionally followed by one publish request at a time for the subscriptions left late; oracle: the subscriptions answered by that tick are the k highest-priority ones, in descending priority, and each later request is answered by the highest-priority late subscription; non-trivial = fewer requests than ready subscriptions and a priority order that is neither ascending nor descending subscription-id order; distinct = distinct case",
         assumptions: &["priorities are distinct, so no tie-breaking rule is assumed", "when there are more requests than subscriptions only the first |subscriptions| responses are compared"],
         abort_possible: false,
         parts: |tier| vec![part("priority", tier.pick(1000, 20000), case(), run)],
